@@ -828,10 +828,15 @@ func (p *Parser) evaluateImport() (evaluatedImport, error) {
 		return evaluatedImport{}, p.expectedError("import path", nextToken)
 	}
 	path := nextToken.Value()
-	nextToken = p.eat()
+	nextToken = p.peek()
 
 	if !slices.Contains([]lexer.TokenType{lexer.NEWLINE, lexer.EOF}, nextToken.Type()) {
 		return evaluatedImport{}, p.expectedError("newline or end-of-file", nextToken)
+	}
+
+	// Only the newline is consumed, the end-of-file token must stay for the statement loop.
+	if nextToken.Type() == lexer.NEWLINE {
+		p.eat()
 	}
 	return evaluatedImport{
 		alias,
